@@ -149,6 +149,42 @@ theorem claimLoop_paid : ∀ (n : Nat) {a a' : ClaimAcc Acc}, claimLoop feesRewa
     · intro w t
       exact Nat.le_trans (m1 w t) (m2 w t)
 
+/-- the VM debits every transfer from the balance -/
+theorem payOut_spec : ∀ (l : List (Tok × Nat)) {bal bal' : Tok → Nat}, payOut bal l = some bal' →
+    ∀ t, bal' t + amountOf t l = bal t := by
+  intro l
+  induction l with
+  | nil =>
+    intro bal bal' h t
+    simp only [payOut, Option.some.injEq] at h
+    subst h; simp
+  | cons p ps ih =>
+    intro bal bal' h t
+    simp only [payOut, Option.bind_eq_some_iff, sub?_eq_some] at h
+    obtain ⟨v, ⟨hle, rfl⟩, h2⟩ := h
+    have := ih h2 t
+    rw [amountOf_cons]
+    by_cases ht : t = p.1
+    · subst ht
+      simp only [upd_same] at this
+      simp
+      omega
+    · have hne : ¬ (p.1 = t) := fun h => ht h.symm
+      simp only [upd_other _ _ ht] at this
+      simp [hne]
+      exact this
+
+theorem amountOf_filter_ne (t : Tok) (l : List (Tok × Nat)) (ht : t ≠ lockedTok) :
+    amountOf t (l.filter fun p => p.1 ≠ lockedTok) = amountOf t l := by
+  unfold amountOf
+  rw [List.filter_filter]
+  congr 2
+  apply List.filter_congr
+  intro p _
+  by_cases h : p.1 = t
+  · subst h; simp [ht]
+  · simp [h]
+
 /-! ### claimCore -/
 
 theorem accumulateAdditional_w (s : St) (W : Nat) : (accumulateAdditional s W).w = s.w := by
@@ -161,12 +197,16 @@ theorem accumulateAdditional_energy (s : St) (W : Nat) :
     (accumulateAdditional s W).energy = s.energy ∧ (accumulateAdditional s W).epoch = s.epoch := by
   unfold accumulateAdditional; split <;> exact ⟨rfl, rfl⟩
 
-/-- the weekly part of a successful claim -/
+theorem accumulateAdditional_bal (s : St) (W : Nat) : (accumulateAdditional s W).bal = s.bal := by
+  unfold accumulateAdditional; split <;> rfl
+
+/-- a successful claim: its weekly part, and what leaves the collector's balance -/
 theorem claimCore_spec {s s' : St} {orig : Nat} {o : Out} (h : claimCore s orig = some (s', o)) :
     ∃ W r, s.week = some W ∧
       claimMulti feesRewards s.w (accumulateAdditional s W).a orig W
         (Energy.queried (s.energy orig) s.epoch) = some (s'.w, s'.a, r) ∧
-      s'.epoch = s.epoch ∧ s'.firstWeek = s.firstWeek := by
+      s'.epoch = s.epoch ∧ s'.firstWeek = s.firstWeek ∧
+      (∀ t, t ≠ lockedTok → s'.bal t + amountOf t r = s.bal t) := by
   simp only [claimCore, Option.bind_eq_bind, Option.bind_eq_some_iff] at h
   obtain ⟨W, hW, ⟨g1, a1, r⟩, hc, h⟩ := h
   rw [accumulateAdditional_w, (accumulateAdditional_energy s W).1,
@@ -175,21 +215,32 @@ theorem claimCore_spec {s s' : St} {orig : Nat} {o : Out} (h : claimCore s orig 
   have hep : (accumulateAdditional s W).epoch = s.epoch := (accumulateAdditional_energy s W).2
   have hfw : (accumulateAdditional s W).firstWeek = s.firstWeek := by
     unfold accumulateAdditional; split <;> rfl
+  have hbl := accumulateAdditional_bal s W
   dsimp only at h
   split at h
-  · simp only [Option.pure_def, Option.some.injEq, Prod.mk.injEq] at h
-    obtain ⟨rfl, _⟩ := h
-    exact ⟨hc, hep, hfw⟩
+  · rename_i hemp
+    simp only [Option.pure_def, Option.some.injEq, Prod.mk.injEq] at h
+    obtain ⟨hs, _⟩ := h
+    rw [← hs]
+    have hr : r = [] := List.isEmpty_iff.mp hemp
+    exact ⟨hc, hep, hfw, fun t _ => by simp [hr, hbl]⟩
   · simp only [Option.bind_eq_bind, Option.bind_eq_some_iff] at h
-    obtain ⟨bal, _, h⟩ := h
+    obtain ⟨bal, hpay, h⟩ := h
+    have hp : ∀ t, t ≠ lockedTok → bal t + amountOf t r = s.bal t := by
+      intro t ht
+      have := payOut_spec _ hpay t
+      rw [amountOf_filter_ne t r ht] at this
+      rw [← hbl]; exact this
     split at h
     · simp only [Option.pure_def, Option.some.injEq, Prod.mk.injEq] at h
-      obtain ⟨rfl, _⟩ := h
-      exact ⟨hc, hep, hfw⟩
+      obtain ⟨hs, _⟩ := h
+      rw [← hs]
+      exact ⟨hc, hep, hfw, hp⟩
     · simp only [Option.bind_eq_bind, Option.bind_eq_some_iff, Option.pure_def, Option.some.injEq,
         Prod.mk.injEq] at h
-      obtain ⟨e, _, rfl, _⟩ := h
-      exact ⟨hc, hep, hfw⟩
+      obtain ⟨e, _, hs, _⟩ := h
+      rw [← hs]
+      exact ⟨hc, hep, hfw, hp⟩
 
 /-! ### the invariant over histories -/
 
